@@ -199,6 +199,15 @@ impl Crypto {
     pub fn keccak256(&self, b: &Bytes) -> Hash<32> {
         Hash(BytesN(ideal_hash(&b.0)))
     }
+    /// another ideal hash, domain-separated from keccak256 by a leading tag byte in the memo
+    pub fn sha256(&self, b: &Bytes) -> Hash<32> {
+        let mut t = Buf::new();
+        t.push(0x53);
+        t.extend_buf(&b.0);
+        let mut o = ideal_hash(&t);
+        o[2] = 0x53;
+        Hash(BytesN(o))
+    }
     pub fn ed25519_verify(&self, pk: &BytesN<32>, msg: &Bytes, sig: &BytesN<64>) {
         if msg.0.len != 32 {
             crate::mfail!("MODEL:ed25519 message is not a 32-byte digest");
